@@ -90,7 +90,9 @@ def cook_publication_order(spec):
     for i, st in enumerate(fn.body):
         for n in ast.walk(st):
             if isinstance(n, ast.Call) and isinstance(n.func, ast.Name) and n.func.id == 'delattr':
+                # the condition under which it removes: an `if` statement or a comprehension filter
                 guard = [ast.unparse(t.test) for t in ast.walk(st) if isinstance(t, ast.If)]
+                guard += [ast.unparse(c) for t in ast.walk(st) if isinstance(t, ast.comprehension) for c in t.ifs]
                 removals.append((i, guard))
             if isinstance(n, ast.Delete) and any('self' in ast.unparse(t) for t in n.targets):
                 removals.append((i, ['del statement']))
@@ -149,8 +151,17 @@ def tag_nodes_frame(spec):
     fn = find(parse('zpt/program.py'), 'MacroProgram.visit_element')
     obls = []
 
+    aliases = {}
+    for n in ast.walk(fn):
+        if isinstance(n, ast.Assign) and len(n.targets) == 1 and isinstance(n.targets[0], ast.Name):
+            aliases.setdefault(n.targets[0].id, []).append(n.value)
+
     def field_of(n, var):
-        """n is var['f'] or self._maybe_trim(var['f']) -> 'f'"""
+        """n is var['f'] or self._maybe_trim(var['f']) (possibly through a local bound once) -> 'f'"""
+        if isinstance(n, ast.Name) and len(aliases.get(n.id, [])) == 1:
+            n = aliases[n.id][0]
+        if isinstance(n, ast.IfExp) and isinstance(n.orelse, ast.Constant) and n.orelse.value is None:
+            n = n.body              # `x['f'] if x is not None else None`
         if isinstance(n, ast.Call) and isinstance(n.func, ast.Attribute) and n.func.attr == '_maybe_trim' \
                 and len(n.args) == 1:
             n = n.args[0]
